@@ -354,6 +354,8 @@ struct Book {
 }
 
 static HEARTBEAT: AtomicU64 = AtomicU64::new(0);
+static CASE_IDX: AtomicU64 = AtomicU64::new(0);
+static STEP_IDX: AtomicU64 = AtomicU64::new(0);
 
 fn expected_intent_id(core_wl: WorldlineId, bytes: &[u8]) -> Vec<u8> {
     IngressEnvelope::local_intent(IngressTarget::DefaultWriter { worldline_id: core_wl }, make_intent_kind("echo.intent/eint-v1"), bytes.to_vec())
@@ -436,6 +438,7 @@ fn check_case(case: &Value) -> Value {
     let calls = case["calls"].as_array().unwrap_or(&empty);
     for (step, call) in calls.iter().enumerate() {
         HEARTBEAT.fetch_add(1, Ordering::Relaxed);
+        STEP_IDX.store(step as u64, Ordering::Relaxed);
         let op = &call["op"];
         let pred = &call["r"];
         let a = op["a"].as_str().unwrap_or("");
@@ -800,28 +803,70 @@ fn check_case(case: &Value) -> Value {
 
 const PROBE_CYCLES: u32 = 25;
 
-/// Watchdog: a port call that does not return within the budget is tool trouble for the runner (the
-/// model marks the one call that cannot return, and the harness never issues it).
-fn spawn_watchdog() {
-    std::thread::spawn(|| {
-        let budget = std::env::var("VERIF_KPORT_CALL_TIMEOUT").ok().and_then(|v| v.parse().ok()).unwrap_or(60u64);
-        let mut last = HEARTBEAT.load(Ordering::Relaxed);
-        let mut idle = 0u64;
-        loop {
-            std::thread::sleep(std::time::Duration::from_secs(1));
-            let now = HEARTBEAT.load(Ordering::Relaxed);
-            if now == last {
-                idle += 1;
-                if idle >= budget {
-                    eprintln!("kport: a port call did not return within {budget} s (heartbeat {now})");
-                    std::process::exit(3);
+/// Runs `f` over the cases on a worker thread. A case that does not finish within the budget (a port call of
+/// the code under test that never returns) is reported as `{"verdict":"hang"}`; the spinning worker is
+/// abandoned (it dies with the process) and a fresh worker continues with the next case.
+fn run_cases(input: &str, output: &str, f: fn(&Value) -> Value) -> i32 {
+    let budget = std::time::Duration::from_secs(std::env::var("VERIF_KPORT_CALL_TIMEOUT").ok().and_then(|v| v.parse().ok()).unwrap_or(30u64));
+    let cases: std::sync::Arc<Vec<Value>> = std::sync::Arc::new(util::read_lines(input).map(|(_, c)| c).collect());
+    let mut out = util::Out::create(output);
+    let prev = std::panic::take_hook();
+    std::panic::set_hook(Box::new(|_| {}));
+    let mut next = 0usize;
+    let mut hangs = 0usize;
+    while next < cases.len() {
+        let (tx, rx) = std::sync::mpsc::channel::<Value>();
+        let work = std::sync::Arc::clone(&cases);
+        let from = next;
+        std::thread::spawn(move || {
+            for (k, case) in work[from..].iter().enumerate() {
+                CASE_IDX.store((from + k) as u64, Ordering::Relaxed);
+                let v = match std::panic::catch_unwind(std::panic::AssertUnwindSafe(|| f(case))) {
+                    Ok(v) => v,
+                    Err(p) => json!({"verdict":"violation","kind":"panic_outside_port_call","detail":util::panic_message(&p)}),
+                };
+                if tx.send(v).is_err() {
+                    break;
                 }
-            } else {
-                idle = 0;
-                last = now;
+            }
+        });
+        loop {
+            match rx.recv_timeout(budget) {
+                Ok(v) => {
+                    out.line(&v);
+                    next += 1;
+                    if next == cases.len() {
+                        break;
+                    }
+                }
+                Err(std::sync::mpsc::RecvTimeoutError::Timeout) => {
+                    out.line(&json!({"verdict":"hang","kind":"port_call_did_not_return","step":STEP_IDX.load(Ordering::Relaxed),
+                                     "detail":format!("a port call did not return within {} s", budget.as_secs())}));
+                    next += 1;
+                    hangs += 1;
+                    break;
+                }
+                Err(std::sync::mpsc::RecvTimeoutError::Disconnected) => {
+                    eprintln!("kport: worker thread died at case {next}");
+                    return 2;
+                }
             }
         }
-    });
+        if hangs >= 4 {
+            // every abandoned worker spins on a core: give up on the rest
+            while next < cases.len() {
+                out.line(&json!({"verdict":"skipped","detail":"too many port calls that did not return"}));
+                next += 1;
+            }
+        }
+    }
+    std::panic::set_hook(prev);
+    out.finish();
+    if hangs > 0 {
+        // leave without joining the spinning workers
+        std::process::exit(0);
+    }
+    0
 }
 
 pub fn run(args: &[String]) -> i32 {
@@ -829,18 +874,7 @@ pub fn run(args: &[String]) -> i32 {
         eprintln!("usage: echo-verif kport <cases.ndjson> <results.ndjson>");
         return 2;
     }
-    spawn_watchdog();
-    let mut out = util::Out::create(&args[1]);
-    for (_, case) in util::read_lines(&args[0]) {
-        let v = match util::catch(|| check_case(&case)) {
-            Ok(v) => v,
-            Err(p) => json!({"verdict":"violation","kind":"panic_outside_port_call","detail":p}),
-        };
-        out.line(&v);
-    }
-    HEARTBEAT.store(u64::MAX, Ordering::Relaxed);
-    out.finish();
-    0
+    run_cases(&args[0], &args[1], check_case)
 }
 
 // ------------------------------------------------------------------------------------------
@@ -946,17 +980,7 @@ pub fn run_surface(args: &[String]) -> i32 {
         eprintln!("usage: echo-verif kport-surface <cases.ndjson> <results.ndjson>");
         return 2;
     }
-    spawn_watchdog();
-    let mut out = util::Out::create(&args[1]);
-    for (_, case) in util::read_lines(&args[0]) {
-        let v = match util::catch(|| surface_case(&case)) {
-            Ok(v) => v,
-            Err(p) => json!({"verdict":"violation","kind":"panic_outside_port_call","detail":p}),
-        };
-        out.line(&v);
-    }
-    out.finish();
-    0
+    run_cases(&args[0], &args[1], surface_case)
 }
 
 /// Probe of the one call the model says never returns: a typed engine error quarantines the only head with
